@@ -281,7 +281,7 @@ class Run:
                     # thread per call only to shut the executor down)
                     loop = asyncio.new_event_loop()
                     try:
-                        d = loop.run_until_complete(self.guard._evaluate_core_async(*make_req(op[1])))
+                        d = loop.run_until_complete(self.guard.evaluate_async(*make_req(op[1])))
                     finally:
                         loop.close()
                     self.results[i].append(dec_dict(d))
